@@ -150,6 +150,8 @@ def _funnel(ctx) -> None:
                tzm.loc(e))
         ctx.ob("FUNNEL.tzdatetime", f"{cls}.datetime/tzinfo", "tzinfo" not in b,
                "the value handed to convert() must be naive", tzm.loc(e), nontrivial=False)
+    from . import C13
+    C13.parse_results_tabulate(ctx)
     # parser._parse
     pm = pmod("parser")
     pf = pm.func("_parse")
@@ -405,7 +407,7 @@ def _convert_tabulate(ctx) -> None:
             "NonExistingTime": ValueError, "AmbiguousTime": ValueError, "ValueError": ValueError}
 
     def make_zone(cls, tr, fixed=None):
-        meths = m.methods(cls)
+        meths = m.methods(cls, inherited=True)
         props = {k for k, f in meths.items() if any(core.dotted(d) == "property" for d in f.decorator_list)}
 
         class Zone(_dt.tzinfo):
